@@ -156,9 +156,17 @@ func verifC14_Trie() {
 			mgr.subscribe([]string{names[f]}, []byte{q}, clients[c])
 			subs[c][f] = vSub{c, f, q, true}
 		case 1:
-			f := verifChoose("op.filter", nf) // possibly never subscribed
-			mgr.unsubscribe([]string{names[f]}, clients[c])
+			// an UNSUBSCRIBE packet with one or two filters, each possibly never subscribed
+			f := verifChoose("op.filter", nf)
+			topics := []string{names[f]}
 			subs[c][f].live = false
+			if verifBool("op.unsubscribeTwoFilters") {
+				f2 := verifChoose("op.filter", nf)
+				topics = append(topics, names[f2])
+				subs[c][f2].live = false
+				verifCover("multi-filter-unsubscribe")
+			}
+			mgr.unsubscribe(topics, clients[c])
 		case 2: // disconnect: every filter of the session is unsubscribed
 			var topics []string
 			for f := 0; f < nf; f++ {
